@@ -141,6 +141,12 @@ func (f *Frame) encodeCall(x ssa.Value, cc *ssa.CallCommon, st *State) {
 		return
 	}
 	key := keyOfFunction(fn)
+	if fn.Synthetic == "package initializer" && f.fn.Synthetic == "package initializer" {
+		// initialisers of imported packages cannot reference this package's
+		// variables (imports are acyclic): no effect on what is verified here
+		f.setResult(x, nil, nil)
+		return
+	}
 	if jsonUnmarshalKeys[key] && f.jsonUnmarshal(x, cc, args, st) {
 		return
 	}
@@ -246,14 +252,42 @@ func (e *Enc) pureUF(key string, i int, args []*Val, rt types.Type, tok string) 
 	c := e.ctx
 	name := fmt.Sprintf("pf$%s$%d", sanitize(key), i)
 	var sorts, terms []string
+	heapDep := false
 	for _, a := range args {
 		sorts = append(sorts, c.sortOf(a.Typ))
 		terms = append(terms, a.T)
+		if !isValueOnly(a.Typ) {
+			heapDep = true
+		}
 	}
-	sorts = append(sorts, sortTok)
-	terms = append(terms, tok)
+	// a function of plain values (integers, strings, booleans) cannot depend on the heap
+	if heapDep {
+		sorts = append(sorts, sortTok)
+		terms = append(terms, tok)
+	}
 	c.declFun(name, sorts, c.sortOf(rt))
+	if len(terms) == 0 {
+		return quoteSym(name)
+	}
 	return "(" + quoteSym(name) + " " + strings.Join(terms, " ") + ")"
+}
+
+// isValueOnly: values of this type carry no references into the heap.
+func isValueOnly(t types.Type) bool {
+	switch u := t.Underlying().(type) {
+	case *types.Basic:
+		return u.Kind() != types.UnsafePointer
+	case *types.Struct:
+		for i := 0; i < u.NumFields(); i++ {
+			if !isValueOnly(u.Field(i).Type()) {
+				return false
+			}
+		}
+		return true
+	case *types.Array:
+		return isValueOnly(u.Elem())
+	}
+	return false
 }
 
 func (f *Frame) pureDefault(x ssa.Value, fn *ssa.Function, key string, args []*Val, rts []types.Type, st *State) {
